@@ -3,6 +3,7 @@ import sys
 from fractions import Fraction
 
 import numpy as np
+from hypothesis import strategies as st
 
 from harness import gen, buffers
 from harness.core import SubCheck, Violation
@@ -20,7 +21,8 @@ RULE = ("Hypothesis-generated (cost table T x K, beta) pairs: class E = multiple
         "the reported cost must equal the exact cost of the returned sequence, labels integral in [0,K). "
         "Non-trivial = T>=2, K>=2 and (the optimum differs from sum_i min_k c_ik, i.e. beta binds, or the returned "
         "sequence switches label); distinct by SHA-1 of the encoded case."
-        ' Tables of 4096..9002 rows (forward-DP oracle) and exact tables with a few entries of 2**57 that no optimal path uses are part of the exact class.')
+        ' Tables of 4096..9002 rows (forward-DP oracle) and exact tables with a few entries of 2**57 that no optimal path uses are part of the exact class.'
+        ' The labelling step itself (predict_cluster_labels on hand-built models, scalar and vector costs with large entries and exact zeros) is judged by the same exact oracle on the table seen at the hook.')
 ASSUMPTIONS = [
     "the reference forward Viterbi is itself cross-checked against exhaustive enumeration on every tiny case of the run",
     "class-F slack 8*T*eps*(sum_i max_k|c_ik| + sum beta) is an a-priori rounding bound for a T-step float DP; class E uses no tolerance",
@@ -195,6 +197,86 @@ def fuzz_seeds():
             bytes([1, 4, 0, 0, 1, 2, 3, 4]), bytes([6, 2, 0, 96] + [40, 41] * 6), bytes([2, 5, 1, 0, 0] + [7] * 10)]
 
 
+# ----------------------------------------------------------------------------- the labelling step as the main loop calls it
+
+@st.composite
+def phase_case(draw):
+    T = draw(st.integers(2, 60))
+    kind = draw(st.sampled_from(["scalar", "scalar", "vector_random", "vector_large_with_zeros", "vector_large_with_zeros", "vector_two_levels"]))
+    return {"K": draw(st.integers(2, 4)), "n": draw(st.integers(1, 3)), "T": T, "seed": draw(st.integers(0, 2 ** 32 - 1)),
+            "beta_kind": kind, "beta": draw(st.sampled_from([0.0, 0.5, 2.0, 8.0, 40.0, 1000.0])),
+            "segments": draw(st.integers(1, 4)), "duplicate_cluster": draw(st.sampled_from([False, False, True]))}
+
+
+def execute_phase(case, t):
+    """predict_cluster_labels(model, data): the table it scores (seen through the guarded hook, and recomputed here from the
+    likelihood function) and the switching cost held by the model's arguments define the problem; the labelling and cost it
+    stores must solve it.  Rounding class: the table is a float computation, so the slack of class F applies."""
+    from fast_ticc import cluster_label_assignment, _verif
+    from fast_ticc.containers import arguments, model_state
+    rng = np.random.default_rng(case["seed"])
+    K, n, T = case["K"], case["n"], case["T"]
+    # piecewise-constant regimes so that the unconstrained optimum really changes label
+    bounds = sorted(set(int(v) for v in rng.integers(1, T, size=case["segments"])))
+    reg = np.zeros(T, dtype=int)
+    for b in bounds:
+        reg[b:] = (reg[b - 1] + 1 + int(rng.integers(0, K - 1))) % K
+    data = rng.normal(size=(T, n)) * 0.6 + reg[:, None] * 2.0
+    v = float(case["beta"])
+    kind = case["beta_kind"]
+    if kind == "scalar":
+        beta = v
+    elif kind == "vector_random":
+        beta = np.round(rng.uniform(0, 2, size=T) * v, 3)
+    elif kind == "vector_two_levels":
+        beta = np.where(rng.integers(0, 2, size=T) == 1, v, v / 8.0)
+    else:
+        # dominated by large entries, free exactly where the regimes change (what a boundary mask looks like)
+        beta = np.full(T, max(v, 40.0))
+        for b in bounds:
+            beta[b - 1] = 0.0
+    args = arguments.UserArguments(sparsity_weight=0.1, iteration_limit=1, label_switching_cost=beta, min_cluster_size=2,
+                                   min_meaningful_covariance=0, num_clusters=K, num_processors=1, window_size=1, biased_covariance=False)
+    ms = model_state.ModelState.empty_model(args, data)
+    ms.point_labels = [i % K for i in range(T)]
+    for k in range(K):
+        B = rng.normal(size=(n, n)) * 0.3
+        ms.clusters[k].train_inverse = B @ B.T + np.eye(n)
+        ms.clusters[k].stacked_data_mean = np.full(n, 2.0 * k) + rng.normal(size=n) * 0.1
+    if case.get("duplicate_cluster"):
+        ms.clusters[K - 1].train_inverse = ms.clusters[0].train_inverse.copy()
+        ms.clusters[K - 1].stacked_data_mean = ms.clusters[0].stacked_data_mean.copy()
+    seen = []
+
+    def listener(ev, p):
+        if ev == "relabel_inputs":
+            sc = p["switching_cost"]
+            seen.append((np.array(p["cost_table"], copy=True), np.array(sc, copy=True) if isinstance(sc, np.ndarray) else sc))
+    _verif.listeners.append(listener)
+    try:
+        try:
+            out = cluster_label_assignment.predict_cluster_labels(ms, data)
+        except Exception as e:
+            raise Violation(f"labelling step raised {type(e).__name__}: {str(e)[:160]}")
+    finally:
+        _verif.listeners.remove(listener)
+    if len(seen) != 1:
+        raise RuntimeError("expected exactly one relabel_inputs event (is FAST_TICC_VERIF set?)")
+    table, beta_seen = seen[0]
+    b_arg = np.asarray(beta, dtype=np.float64) if isinstance(beta, np.ndarray) else float(beta)
+    if isinstance(beta, np.ndarray) != isinstance(beta_seen, np.ndarray) or not np.array_equal(np.asarray(beta_seen, dtype=np.float64), np.asarray(b_arg)):
+        raise Violation("the labelling step does not price label changes with the model's own switching cost")
+    obs = check_labelling(table, b_arg, [int(x) if isinstance(x, (int, np.integer)) and not isinstance(x, (bool, np.bool_)) else x for x in out.point_labels],
+                          out.label_assignment_cost, "F", t, who="labelling step")
+    t.cls(f"beta_{kind}")
+    if obs["switches"]:
+        t.cls("optimal_path_switches")
+    if obs["beta_binds"]:
+        t.cls("beta_binds")
+    if obs["switches"] or obs["beta_binds"]:
+        t.mark_nontrivial({"labels": obs["seq"][:40], "switches": obs["switches"], "beta_kind": kind})
+
+
 SUBCHECKS = [
     SubCheck(
         name="kernel_vs_exact_optimum",
@@ -206,6 +288,9 @@ SUBCHECKS = [
         modes=["jit", "nojit"],
         min_nontrivial_fraction=0.3,
     ),
+    SubCheck(name="labelling_step_on_a_model_vs_exact_optimum", strategy=phase_case, execute=execute_phase,
+             budget={"quick": 600, "thorough": 30000}, shards={"quick": 3, "thorough": 8}, modes=["jit", "nojit"],
+             min_nontrivial_fraction=0.3),
     SubCheck(
         name="kernel_coverage_guided_fuzz",
         execute=execute, fuzz_decode=fuzz_decode, fuzz_seeds=fuzz_seeds,
